@@ -106,6 +106,61 @@ pub fn pair() -> impl Strategy<Value = Pair> {
     prop_oneof![6 => comm, 3 => incomm, 1 => unrelated]
 }
 
+/// Computed operands: the left side is a product or quotient of two quantities (so its unit is whatever the
+/// tool reconstructs), the right side / cast target a spelling built for that dimension or a perturbed one.
+#[derive(Clone, Debug)]
+pub struct Computed {
+    pub a: USpell,
+    pub b: USpell,
+    pub u2: USpell,
+    pub x: Lit,
+    pub z: Lit,
+    pub y: Lit,
+    pub div: bool,
+    pub form: u8,
+    pub commensurable: bool,
+}
+
+pub fn computed_expr(c: &Computed) -> Expr {
+    let prod = Expr::Paren(Box::new(Expr::bin(if c.div { Op::Div } else { Op::Mul }, Expr::Qty(c.x.clone(), c.a.clone()), Expr::Qty(c.z.clone(), c.b.clone()))));
+    let other = Expr::Qty(c.y.clone(), c.u2.clone());
+    match c.form {
+        0 => Expr::bin(Op::Add, prod, other),
+        1 => Expr::bin(Op::Sub, other, prod),
+        _ => Expr::Cast(Box::new(prod), c.u2.clone()),
+    }
+}
+
+pub fn computed() -> impl Strategy<Value = Computed> {
+    (free_spelling(2, 2), free_spelling(2, 2), raw_spell(3, 3), any::<bool>(), 0u8..3, prop::option::weighted(0.35, (0usize..8, prop_oneof![Just(1i32), Just(-1)])), lit(), lit(), lit())
+        .prop_map(|(a, b, raw, div, form, perturb, x, z, y)| {
+            let mut dim = crate::units_ref::dim_add(&a.dim(), &b.dim(), if div { -1 } else { 1 });
+            if let Some((i, d)) = perturb {
+                dim[i] += d;
+            }
+            let u2 = build_spelling(&raw, &dim);
+            Computed { a, b, u2, x, z, y, div, form, commensurable: perturb.is_none() }
+        })
+        .prop_filter("non-empty target", |c| !c.u2.factors.is_empty())
+}
+
+pub fn computed_case(c: &Computed) -> Option<QCase> {
+    let e = computed_expr(c);
+    let r = eval_ref(&e, &ObsEnv);
+    let unit = if c.form >= 2 { Some(c.u2.mirror()) } else { None };
+    let expect = expect_of(&r, unit.as_ref())?;
+    let mut classes = vec!["computed-operand".to_string(), if c.commensurable { "commensurable" } else { "incommensurable" }.to_string()];
+    classes.push(match c.form { 0 => "add", 1 => "sub", _ => "cast" }.to_string());
+    Some(QCase { query: render_canonical(&e), expect, nontrivial: true, classes })
+}
+
+fn check_computed(c: &Computed) -> CaseReport {
+    match computed_case(c) {
+        Some(q) => judge(shared_db(), &q),
+        None => CaseReport::discard("", "reference-unspecified"),
+    }
+}
+
 fn check(p: &Pair) -> CaseReport {
     match make_case(p) {
         Some(c) => judge(shared_db(), &c),
@@ -148,7 +203,7 @@ fn fixed_list() -> Vec<Pair> {
 }
 
 pub fn run_check(ctx: &Ctx) {
-    ctx.set_rule("pairs of unit spellings built for the same dimension vector (commensurable: free first spelling, second = random derived units + residual in base units) or for a perturbed/unrelated one, in the forms x U1 + y U2, x U1 - y U2, x U1 to U2 and the plain-number forms x + y U, y U + x, x - y U, y U - x, x to U; oracle: success iff the reference dimension vectors (hand-written table) are equal, exact value x + y*s(U2)/s(U1), plain numbers adopt the unit in both orders; non-trivial = the two spellings differ structurally or a plain-number form; distinct by query text");
+    ctx.set_rule("pairs of unit spellings built for the same dimension vector (commensurable: free first spelling, second = random derived units + residual in base units) or for a perturbed/unrelated one, in the forms x U1 + y U2, x U1 - y U2, x U1 to U2 and the plain-number forms x + y U, y U + x, x - y U, y U - x, x to U; oracle: success iff the reference dimension vectors (hand-written table) are equal, exact value x + y*s(U2)/s(U1), plain numbers adopt the unit in both orders; also with a computed left operand ((x A * z B) + y U, y U - (x A / z B), (x A * z B) to U) whose unit is whatever the tool reconstructed; non-trivial = the two spellings differ structurally or a plain-number form; distinct by query text");
     ctx.assume("proportional units only; each unit at most once per spelling; words are restricted to those the tool reads as declared (C05 judges the rest)");
     let corpus: Vec<(String, QCase)> = load_corpus("C02");
     let cases: Vec<QCase> = corpus.into_iter().map(|c| c.1).collect();
@@ -157,6 +212,7 @@ pub fn run_check(ctx: &Ctx) {
     ctx.run_list("named-pairs", &fixed, check, |p| make_case(p).map(|c| to_json(&c)).unwrap_or(Value::Null));
     let n = ctx.tier.pick(150_000u64, 3_000_000);
     ctx.run_gen("generated", pair, n, check, |p| make_case(p).map(|c| to_json(&c)).unwrap_or(Value::Null));
+    ctx.run_gen("computed-operands", computed, n / 5, check_computed, |c| computed_case(c).map(|q| to_json(&q)).unwrap_or(Value::Null));
     let obs = observed();
     if !obs.failed.is_empty() {
         ctx.put("factor_observation_failed", serde_json::json!(obs.failed));
